@@ -305,3 +305,73 @@ fn canary_c06_u1_one_char_punctuation() {
         "CANARY:C06.lexer.recogniser_matched"
     );
 }
+
+// ---------------------------------------------------------------------------------------------
+// C09: "Identifiers may be any XID_Start (or _) followed by XID_Continue". The Unicode tables are
+// replaced by a table that is EXACT on ASCII and, for the one non-ASCII character of the input, an
+// arbitrary but consistent pair of answers with XID_Start => XID_Continue (true of the real tables).
+// The identifier recognised in "x<c>" must then extend over <c> exactly when <c> is XID_Continue.
+static mut XID_C: char = 'a';
+static mut XID_C_START: bool = false;
+static mut XID_C_CONTINUE: bool = false;
+
+fn table_xid_start(ch: char) -> bool {
+    if ch.is_ascii() {
+        ch.is_ascii_alphabetic()
+    } else if ch == unsafe { XID_C } {
+        unsafe { XID_C_START }
+    } else {
+        false
+    }
+}
+fn table_xid_continue(ch: char) -> bool {
+    if ch.is_ascii() {
+        ch.is_ascii_alphanumeric() || ch == '_'
+    } else if ch == unsafe { XID_C } {
+        unsafe { XID_C_CONTINUE }
+    } else {
+        false
+    }
+}
+
+#[kani::proof]
+#[kani::unwind(7)]
+#[kani::stub(unicode_ident::is_xid_start, table_xid_start)]
+#[kani::stub(unicode_ident::is_xid_continue, table_xid_continue)]
+#[kani::stub(Lexer::record_almost_keyword, no_hint)]
+fn c09_u7_identifier_extends_over_xid_continue() {
+    let c: char = kani::any();
+    let (st, co): (bool, bool) = (kani::any(), kani::any());
+    kani::assume(!st || co);
+    unsafe {
+        XID_C = c;
+        XID_C_START = st;
+        XID_C_CONTINUE = co;
+    }
+    let mut buf = [0u8; 5];
+    buf[0] = b'x';
+    let n = c.encode_utf8(&mut buf[1..]).len();
+    let s = match core::str::from_utf8(&buf[..1 + n]) {
+        Ok(s) => s,
+        Err(_) => {
+            kani::assume(false);
+            ""
+        }
+    };
+    let mut l = Lexer::new(s);
+    let r = l.keyword_or_ident();
+    let want = if table_xid_continue(c) { 1 + n } else { 1 };
+    match r {
+        ControlFlow::Break((_tok, span)) => {
+            assert!(
+                span.start == 0 && span.end == want,
+                "OBL:C09.lexer.identifier_is_xid_start_followed_by_all_xid_continue_characters"
+            );
+        }
+        ControlFlow::Continue(()) => {
+            assert!(false, "OBL:C09.lexer.identifier_is_xid_start_followed_by_all_xid_continue_characters");
+        }
+    }
+    kani::cover!(!c.is_ascii() && co && !st, "COV:C09.lexer.non_ascii_continue_only_character_reached");
+    kani::cover!(c.is_ascii_digit(), "COV:C09.lexer.digit_reached");
+}
